@@ -59,9 +59,35 @@ def reservedFor : MType → Bytes
 def Reg.existingVec (r : Reg V) (ty : MType) (a : GetArgs V) : Option (VecM V) :=
   (r.find a.name).bind fun m => if m.ty == ty then m.vecs.find? (·.names == a.labels.map (·.1)) else none
 
+/-- `helpFor`: the help string a new vector of this name gets — that of the first vector ever created for the
+    name (vectors are never removed), else the one the request carries -/
+def Reg.helpFor (r : Reg V) (a : GetArgs V) : Bytes := (r.firstHelp? a.name).getD a.help
+
 def Reg.vecFor (r : Reg V) (ty : MType) (a : GetArgs V) : VecM V :=
-  (r.existingVec ty a).getD { names := a.labels.map (·.1), help := a.help, bounds := a.bounds, maxAge := a.maxAge,
+  (r.existingVec ty a).getD { names := a.labels.map (·.1), help := r.helpFor a, bounds := a.bounds, maxAge := a.maxAge,
                               ageBuckets := a.ageBuckets, objectives := a.objectives }
+
+/-- `Reg.firstHelp?` spelled out: the name resolves to a metric entry whose first vector has this help -/
+theorem firstHelp?_some_iff (r : Reg V) (name : Bytes) (h : Bytes) :
+    r.firstHelp? name = some h ↔ ∃ m v rest, r.find name = some m ∧ m.vecs = v :: rest ∧ v.help = h := by
+  unfold Reg.firstHelp?
+  cases hf : r.find name with
+  | none => simp
+  | some m =>
+    cases hv : m.vecs with
+    | nil => simp [hv]
+    | cons v rest => simp [hv]
+
+/-- no metric entry, or one without vectors: a new vector keeps the help string of its request -/
+theorem firstHelp?_none_iff (r : Reg V) (name : Bytes) :
+    r.firstHelp? name = none ↔ ∀ m, r.find name = some m → m.vecs = [] := by
+  unfold Reg.firstHelp?
+  cases hf : r.find name with
+  | none => simp
+  | some m =>
+    cases hv : m.vecs with
+    | nil => simp [hv]
+    | cons v rest => simp [hv]
 
 /-- the constructor panics of client_golang at child creation -/
 def ctorPanic (ty : MType) (vec : VecM V) : Option Panic :=
